@@ -15,4 +15,6 @@ json.dump({"classes": json.loads(json.dumps(wire_signature(ck)))}, open(os.path.
 data = repo.const("skepticoin.genesis.genesis_block_data")
 open(os.path.join(ref, "genesis.sha256"), "w").write(hashlib.sha256(data).hexdigest() + "  genesis_block_data (%d bytes)\n" % len(data))
 json.dump(sorted(repo.functions), open(os.path.join(ref, "api_functions.json"), "w"), indent=0)
+from verif.selftest.runner import tree_digest
+open(os.path.join(ref, "tree.sha256"), "w").write(tree_digest(repo.root) + "  skepticoin/**/*.py of the tree the corpora were confirmed on\n")
 print(len(table), "checkpoints; genesis", len(data), "bytes;", len(repo.functions), "functions")
